@@ -121,6 +121,34 @@ fn run_case(case: &Value) -> Value {
 						Box::new(async move { tokio::time::sleep(Duration::from_millis(d)).await })
 					})
 				}
+				"raw" => {
+					// one control at an explicit priority, through the verification hook
+					use watchexec_supervisor::job::Control;
+					let ctrl = match op["ctrl"].as_str().unwrap() {
+						"Start" => Control::Start,
+						"Stop" => Control::Stop,
+						"GracefulStop" => Control::GracefulStop { signal: sig_of(&op["sig"]), grace },
+						"TryRestart" => Control::TryRestart,
+						"TryGracefulRestart" => Control::TryGracefulRestart { signal: sig_of(&op["sig"]), grace },
+						"Signal" => Control::Signal(sig_of(&op["sig"])),
+						"Delete" => Control::Delete,
+						"ContinueTryGracefulRestart" => Control::ContinueTryGracefulRestart,
+						"NextEnding" => Control::NextEnding,
+						"SyncFunc" => {
+							let (sh2, m) = (sh.clone(), op["mark"].as_u64().unwrap());
+							Control::SyncFunc(Box::new(move |ctx| log(&sh2, &format!("mark({m},{},{})", state_tag(ctx.current), ctx.previous.map_or("-".into(), state_tag)))))
+						}
+						"AsyncFunc" => {
+							let (sh2, m, d) = (sh.clone(), op["mark"].as_u64().unwrap(), op["dur"].as_u64().unwrap());
+							Control::AsyncFunc(Box::new(move |ctx| {
+								log(&sh2, &format!("mark({m},{},{})", state_tag(ctx.current), ctx.previous.map_or("-".into(), state_tag)));
+								Box::new(async move { tokio::time::sleep(Duration::from_millis(d)).await })
+							}))
+						}
+						o => panic!("raw ctrl {o}"),
+					};
+					job.verif_send(ctrl, op["prio"].as_u64().unwrap() as u8)
+				}
 				"set_hook" => install_hook(&job, &sh, Some(op["mark"].as_u64().unwrap())),
 				"unset_hook" => install_hook(&job, &sh, None),
 				o => panic!("op {o}"),
